@@ -111,6 +111,24 @@ func (x *Exec) libCall(fr *Frame, st *State, key string, callee *ssa.Function, a
 	case "errors.Join":
 		x.errPrelude()
 		r := x.freshOfType(st, rt, "err")
+		// errors.Join(errs...) is nil exactly when every element is nil
+		if x.curCall != nil && len(args) == 1 {
+			if sl, ok := x.curCall.Args[0].(*ssa.Slice); ok {
+				if al, ok := sl.X.(*ssa.Alloc); ok {
+					if arr, ok := al.Type().(*types.Pointer).Elem().Underlying().(*types.Array); ok && arr.Len() <= 8 && sl.Low == nil && sl.High == nil {
+						et := arr.Elem()
+						sarr := x.heapGet(st, heapKeySlice(et), et)
+						var nils []string
+						for i := int64(0); i < arr.Len(); i++ {
+							nils = append(nils, fmt.Sprintf("(= (select (select %s (s_base %s)) (+ (s_off %s) %d)) 0)", sarr, args[0].S, args[0].S, i))
+						}
+						x.assume(st.guard, "(= (= "+r.S+" 0) "+and(nils...)+")")
+						x.trust("errors.Join(errs...) is nil exactly when every element is nil (its other properties are not modelled)")
+						return r, true
+					}
+				}
+			}
+		}
 		x.trust("errors.Join result unconstrained except nil-ness unknown")
 		return r, true
 	case "slices.Equal", "bytes.Equal":
